@@ -136,6 +136,8 @@ pub struct Dgram {
     pub to_host: Option<HostId>,
     /// per directed pair ordinal
     pub k: u64,
+    /// global order in which a real node's actor consumed it from its socket
+    pub consumed: Option<u64>,
 }
 
 #[derive(Clone, Debug, Default)]
@@ -235,6 +237,8 @@ struct NodeHost {
     fail_next_send: u32,
     fail_next_recv: u32,
     fail_bind: bool,
+    consumed: u64,
+    snap_consumed: u64,
 }
 
 struct Sock {
@@ -317,6 +321,7 @@ struct State {
     fingerprint: u64,
     /// rolling hash over the delivery order (kind,src,dst) only
     order_fp: u64,
+    consume_seq: u64,
 }
 
 #[derive(Clone, Copy, Debug, PartialEq)]
@@ -324,6 +329,8 @@ pub enum SnapMode {
     Off,
     Every,
     OnDemand,
+    /// only after steps in which the actor consumed a datagram (or on demand)
+    OnConsume,
 }
 
 pub struct Inner {
@@ -501,7 +508,10 @@ impl Env for Inner {
                 st.stats.recv_errors += 1;
                 return Err(io::Error::other("simulated recv failure"));
             }
-            if let Some((bytes, from, _)) = st.socks[sock as usize].inbox.pop_front() {
+            if let Some((bytes, from, id)) = st.socks[sock as usize].inbox.pop_front() {
+                st.consume_seq += 1;
+                st.trace[id].consumed = Some(st.consume_seq);
+                st.hosts[host].consumed += 1;
                 let n = bytes.len().min(buf.len());
                 buf[..n].copy_from_slice(&bytes[..n]);
                 return Ok((n, SocketAddr::V4(from)));
@@ -518,7 +528,10 @@ impl Env for Inner {
         // Suspend: the scheduler resumes us when a datagram is queued or the deadline passes.
         unsafe { (*yielder).suspend(Park { until }) };
         let mut st = self.st.borrow_mut();
-        if let Some((bytes, from, _)) = st.socks[sock as usize].inbox.pop_front() {
+        if let Some((bytes, from, id)) = st.socks[sock as usize].inbox.pop_front() {
+            st.consume_seq += 1;
+            st.trace[id].consumed = Some(st.consume_seq);
+            st.hosts[host].consumed += 1;
             let n = bytes.len().min(buf.len());
             buf[..n].copy_from_slice(&bytes[..n]);
             return Ok((n, SocketAddr::V4(from)));
@@ -556,6 +569,9 @@ impl Env for Inner {
                 SnapMode::Off => false,
                 SnapMode::Every => true,
                 SnapMode::OnDemand => st.hosts[host].snap_wanted,
+                SnapMode::OnConsume => {
+                    st.hosts[host].snap_wanted || st.hosts[host].consumed != st.hosts[host].snap_consumed
+                }
             };
             (host, st.now, want)
         };
@@ -567,6 +583,7 @@ impl Env for Inner {
             let mut st = self.st.borrow_mut();
             st.hosts[host].last_snapshot = Some(snap.clone());
             st.hosts[host].snap_wanted = false;
+            st.hosts[host].snap_consumed = st.hosts[host].consumed;
         }
         if !self.in_observer.get() {
             self.in_observer.set(true);
@@ -702,6 +719,7 @@ impl State {
             from_host,
             to_host: None,
             k,
+            consumed: None,
         });
         if drop {
             return;
@@ -762,6 +780,7 @@ impl Sim {
                 wall_epoch_us: 1_767_225_600_000_000 + rng::key(seed, &[rng::tag("epoch")]) % 1_000_000_000,
                 fingerprint: seed,
                 order_fp: 0,
+                consume_seq: 0,
             }),
             observer: RefCell::new(None),
             in_observer: Cell::new(false),
@@ -904,6 +923,8 @@ impl Sim {
                 fail_next_send: 0,
                 fail_next_recv: 0,
                 fail_bind: false,
+                consumed: 0,
+                snap_consumed: 0,
             });
             id
         };
@@ -1023,6 +1044,22 @@ impl Sim {
     }
     pub fn want_snapshot(&self, host: HostId) {
         self.inner.st.borrow_mut().hosts[host].snap_wanted = true;
+    }
+    /// Number of datagrams the node's actor has consumed so far.
+    pub fn consumed(&self, host: HostId) -> u64 {
+        self.inner.st.borrow().hosts[host].consumed
+    }
+    /// The node's monotonic clock reading at global time `t`.
+    pub fn host_clock_at(&self, host: HostId, t: u64) -> u64 {
+        let st = self.inner.st.borrow();
+        node_clock(&st.hosts[host], t)
+    }
+    /// The node's wall clock (us since epoch) at global time `t`.
+    pub fn host_wall_us_at(&self, host: HostId, t: u64) -> u64 {
+        let st = self.inner.st.borrow();
+        let h = &st.hosts[host];
+        let local = node_clock(h, t) / 1000;
+        (st.wall_epoch_us as i128 + local as i128 + h.spec.wall_offset_us as i128).max(0) as u64
     }
     pub fn host_clock(&self, host: HostId) -> u64 {
         let st = self.inner.st.borrow();
@@ -1490,7 +1527,8 @@ impl Sim {
         }
         self.inner.st.borrow_mut().events.clear();
         *self.inner.observer.borrow_mut() = None;
-        for r in 0..self.inner.st.borrow().raws.len() {
+        let nraws = self.inner.st.borrow().raws.len();
+        for r in 0..nraws {
             let h = self.inner.st.borrow_mut().raws[r].handler.take();
             drop(h);
         }
